@@ -9,6 +9,16 @@ S = lambda s: [ord(c) for c in s]
 I = lambda neg, n: ["int", neg, list(n.to_bytes(8, "big"))]
 
 
+SCOPE_CFG = """SPECIFICATION Spec
+CONSTANTS
+  MaxDepth = %(d)d
+  MaxItems = %(i)d
+  MaxBudget = %(b)d
+  DtorPolicy = "%(pol)s"
+INVARIANTS %(inv)s
+CHECK_DEADLOCK FALSE
+"""
+
 UNITS = {"utf8": (1, False), "utf16le": (2, False), "utf16be": (2, True), "utf32le": (4, False), "utf32be": (4, True)}
 
 
@@ -164,6 +174,18 @@ def fault_leg(chk, tier, arch):
     for b in bad:
         row, o = obsby[b["id"]]
         chk.fail("fault %s: %s" % (b["id"], b["why"]), {"arch": arch, "scenario": row, "observed": o})
+    # scope life cycle: the events recorded by the hook during each run (and during the probes) against the protocol of ScopeUnwind
+    sclines = [json.dumps({"id": json.loads(l)["id"], "sc": o.get("sc", []), "outcome": outcome(o)}) for l, o in zip(lines, obs) if "sc" in o]
+    sclines += [json.dumps({"id": "%s/%s/probe" % (arch, s["id"]), "sc": p.get("sc", []), "outcome": outcome(p)}) for s, p in zip(scen, probes) if "sc" in p]
+    if not any(len(json.loads(l)["sc"]) > 2 for l in sclines):
+        raise vlib.MachineryError("C20 %s: no scope life-cycle events were recorded (hook not compiled in?)" % arch)
+    sc_checked, sc_bad = vlib.validate_traces("Trace_ScopeUnwind", sclines)
+    for b in sc_bad:
+        row, o = obsby.get(b["id"], ({"id": b["id"]}, {}))
+        chk.fail("scope life cycle %s: %s" % (b["id"], b["why"]), {"arch": arch, "scenario": row, "observed": o})
+    chk.cov.setdefault("scope_event_traces", {})[arch] = sc_checked
+    parked = sum(1 for l in sclines if '["park"]' in l)
+    chk.cov.setdefault("runs_with_parked_destructor_error", {})[arch] = parked
     chk.add_cases(len(rows), distinct_keys=(json.loads(l)["id"] for l in lines), validated=checked)
     if lines:
         chk.sample({"arch": arch, "fault_run": json.loads(lines[len(lines) // 2]), "scenario": {k: v for k, v in rows[len(rows) // 2].items() if k != "doc"}})
@@ -183,6 +205,15 @@ def run_check(tier):
                         "(RapidJSON and pugixml allocate their DOM with malloc: those allocations are not fault points)",
                         "leak = blocks allocated with operator new during the call that are still allocated after every object of the call was destroyed",
                         "JSON and XML scenarios have an object/array root, so every prefix that cuts a significant byte is malformed"]
+    # design level: the session machine (scopes with fallible destructors, a fault at every step, user exceptions) refines the
+    # life-cycle protocol and never terminates; the variant whose destructors throw must produce the terminate counterexample
+    r = vlib.tlc("MC_ScopeUnwind", cfg=mp.write_cfg("mc_scope.cfg", SCOPE_CFG % dict(d=3 if tier == "quick" else 4, i=2 if tier == "quick" else 3, b=6 if tier == "quick" else 14,
+                                                                                      pol="park", inv="NeverTerminated EventsAccepted EndAccepted ErrorReachesCaller AllDestroyed")), timeout=1500)
+    chk.add_tlc("MC_ScopeUnwind (destructors park their error)", r)
+    r2 = vlib.tlc("MC_ScopeUnwind", cfg=mp.write_cfg("mc_scope_throw.cfg", SCOPE_CFG % dict(d=3, i=2, b=6, pol="throw", inv="NeverTerminated")), timeout=600, allow=(0, 12))
+    if not (r2.safety_violation and "Invariant NeverTerminated is violated" in r2.out):
+        raise vlib.MachineryError("vacuity self-test: the session machine with throwing destructors must reach std::terminate")
+    chk.cov["expected_counterexamples"] = ["MC_ScopeUnwind with DtorPolicy = throw: NeverTerminated violated (the pinned tree before the destructor fixes)"]
     for arch in ("msgpack", "json", "xml", "csv"):
         fault_leg(chk, tier, arch)
     return chk.finish()
